@@ -59,7 +59,7 @@ func c10Routes(proto string) []routeSpec {
 }
 
 func c10Engine(c *lab.Ctx) {
-	c.Rule("running MOSN with counted breaker resources; histories of mixed outcomes at concurrency 8 x 3 protocols; continuous sign sampling, conservation at quiescence, a go-away connection closed with three requests in flight on it, threshold trip tests (max_requests=3, max_retries=1); distinct = (protocol, route, plan class, outcome) + book signatures")
+	c.Rule("running MOSN with counted breaker resources; histories of mixed outcomes at concurrency 8 x 3 protocols; continuous sign sampling, conservation at quiescence, a go-away connection closed with three requests in flight on it, bursts of 12 simultaneous admissions at max_requests=3, threshold trip tests (max_requests=3, max_retries=1); distinct = (protocol, route, plan class, outcome) + book signatures")
 	e, err := newEngine(c, engineProtos, c10Routes, c10ClusterExtra, nil)
 	if err != nil {
 		c.Require("mosn started", false, err.Error())
@@ -159,6 +159,11 @@ func c10Engine(c *lab.Ctx) {
 	for _, proto := range engineProtos {
 		c10GoAwayInflight(c, e, proto)
 		c10Conservation(c, e, clusters, "after go-away with requests in flight "+proto, false)
+	}
+	// (2c) bursts of simultaneous admissions at a small limit (max_requests = 3 on cluster -lim)
+	for _, proto := range engineProtos {
+		c10Burst(c, e, proto)
+		c10Conservation(c, e, clusters, "after admission bursts "+proto, false)
 	}
 	// (3) threshold tests, one protocol at a time, nothing else running
 	for _, proto := range engineProtos {
@@ -359,6 +364,42 @@ func c10GoAwayInflight(c *lab.Ctx, e *engine, proto string) {
 			c.Violation("limits-trip-at-thresholds", "C10/goaway-inflight/cluster-unusable-afterwards/"+proto,
 				fmt.Sprintf("%s: after an upstream connection went away with requests in flight, a new request to the same cluster ended as %s %d %s", proto, ev2.Kind, ev2.Status, ev2.Err), nil)
 		}
+	}
+}
+
+// c10Burst: 12 clients on connections of their own are released by a barrier at the same instant against a cluster that admits 3
+// requests: whatever number is admitted, every admission must be given back exactly once (the sign sampler runs meanwhile, the
+// conservation check follows) and the limit must still work afterwards.
+func c10Burst(c *lab.Ctx, e *engine, proto string) {
+	for rep := 0; rep < 6; rep++ {
+		c.Case("c10 admission burst %s #%d", proto, rep)
+		start := make(chan struct{})
+		var wg sync.WaitGroup
+		var served, refused int64
+		for k := 0; k < 12; k++ {
+			wg.Add(1)
+			go func(k int) {
+				defer wg.Done()
+				cl := e.newClient(proto, fmt.Sprintf("%s-burst-%d-%d", proto, rep, k))
+				defer cl.close()
+				tok := fmt.Sprintf("burst-%d-%s-%d-%d", c.Batch, proto, rep, k)
+				r := reqFor(proto, "lim", tok, "d150:ok")
+				<-start
+				ev := cl.do(r)
+				if ev.Kind == "response" && ev.BodyToken == tok {
+					atomic.AddInt64(&served, 1)
+				} else {
+					atomic.AddInt64(&refused, 1)
+				}
+			}(k)
+		}
+		time.Sleep(20 * time.Millisecond)
+		close(start)
+		wg.Wait()
+		c.Eval(1)
+		c.Distinct(fmt.Sprintf("burst|%s|served=%d", proto, served))
+		c.Count("burst-requests-served:"+proto, served)
+		c.Count("burst-requests-refused:"+proto, refused)
 	}
 }
 
